@@ -421,6 +421,74 @@ def _lifecycle_stage(thorough):
     return out
 
 
+def _dcl_lockstep_stage(prop, thorough, sd):
+    """spec -> code for the lifecycle model: simulated behaviours of DcLifecycle.tla (without
+    and with id reuse, and with RE-CONFIG loss = K02) are replayed into real pairs, all model
+    variables compared after every action (harness/dcl_lockstep.py).  Sensitivity: behaviours of
+    the model with a repaired defect re-enabled must DISAGREE with the (repaired) code."""
+    from .dcl_lockstep import DclLockStep
+    out = {}
+    traces = []
+    n = 1500 if thorough else 200
+    faithful = [("plain", False, []), ("id-reuse", True, []), ("reconfig-loss", False, ["LossyReconfig"])]
+    sens = ["AckReopens", "ResetBeforeAck", "CloseNoIdQueuesReset", "QueuedNotClosedAtEnd"]
+    behs = {}
+    with T.Scratch() as sc:
+        for name, reuse, dev in faithful:
+            r, b = T.simulate(sc, "DcLifecycle", _dcl_cfg(4, 3, 2, reuse=reuse, dev=dev, inv=[], forward=False, spec="SimSpec"),
+                              num=n, depth=40, seed=sd + len(behs), timeout=900)
+            if not b:
+                raise T.MachineryError("no simulated lifecycle behaviours (%s)\n%s" % (name, r.out[-800:]))
+            behs[name] = b
+        for d in sens:
+            r, b = T.simulate(sc, "DcLifecycle", _dcl_cfg(4, 3, 2, reuse=False, dev=[d], inv=[], forward=False, spec="SimSpec"),
+                              num=150, depth=40, seed=sd + 7, timeout=600)
+            behs["dev:" + d] = b
+    steps = matched = 0
+    mism = []
+    acts = {}
+    for name, _, _ in faithful:
+        for beh in behs[name]:
+            ls = DclLockStep()
+            try:
+                tr = ls.run(beh)
+            finally:
+                ls.close()
+            steps += tr["steps"]
+            matched += tr["matched"]
+            for a in ls.acts:
+                acts[a["op"]] = acts.get(a["op"], 0) + 1
+            if tr["mismatch"] and len(mism) < 5:
+                mism.append("%s: %s" % (name, tr["mismatch"]))
+            if len(traces) < (400 if thorough else 120) and not tr.pop("unjudged", False):
+                tr["focus"] = PROPS[prop]["focus"]
+                tr["meta"] = {"src": "lifecycle-lockstep", "acts": [_jsonable(a) for a in ls.acts]}
+                traces.append(tr)
+    out["lifecycle_lockstep_behaviours"] = sum(len(behs[x[0]]) for x in faithful)
+    out["lifecycle_lockstep_steps"], out["lifecycle_lockstep_agreeing"] = steps, matched
+    out["lifecycle_lockstep_first_mismatches"] = mism
+    out["lifecycle_lockstep_actions"] = acts
+    div = {}
+    for d in sens:
+        k = 0
+        for beh in behs["dev:" + d]:
+            ls = DclLockStep()
+            try:
+                tr = ls.run(beh)
+            finally:
+                ls.close()
+            k += 1 if tr["mismatch"] else 0
+        div[d] = k
+        if k == 0 and steps == matched:
+            raise T.MachineryError("lock-step binding lost: behaviours of DcLifecycle with %s agree with the code" % d)
+    out["lifecycle_lockstep_deviating_models_diverge"] = div
+    return out, traces
+
+
+def _jsonable(a):
+    return {k: (sorted(v) if not isinstance(v, (str, int, bool)) else v) for k, v in a.items()}
+
+
 # --------------------------------------------------------------------------- C02: association set-up model
 
 
@@ -597,6 +665,11 @@ def run(prop):
             design_states += hs_extra["handshake_states"]
             design_trans += hs_extra["handshake_transitions"]
 
+        dcl_extra = {}
+        if prop == "C13":
+            dcl_extra, dcl_traces = _dcl_lockstep_stage(prop, thorough, sd)
+            traces.extend(dcl_traces)
+
         verdicts, tstates, ttrans = J.judge(traces, parallel=8)
 
         # 4. binding self-test
@@ -645,6 +718,7 @@ def run(prop):
         }
         rep.coverage.update(extra)
         rep.coverage.update(hs_extra)
+        rep.coverage.update(dcl_extra)
         if not p["design"][ti] and prop not in ("C13", "C17"):
             rep.coverage["explanation"] = ("design-level model for this property: see the property's own "
                                            "specification module; states/transitions are those of the TLC trace validation")
@@ -749,6 +823,14 @@ def replay(prop, path):
             ls.project = lambda: ({}, {})
             ls.mismatch = "replay"      # no state comparison
             tr = ls.run(beh)
+        finally:
+            ls.close()
+    elif meta.get("src") == "lifecycle-lockstep":
+        from .dcl_lockstep import DclLockStep
+        ls = DclLockStep()
+        try:
+            ls.mismatch = "replay"          # no state comparison
+            tr = ls.run([("init", {})] + [("x", {"act": a}) for a in meta["acts"]])
         finally:
             ls.close()
     elif meta.get("src") == "lockstep":
